@@ -66,6 +66,7 @@ pub struct Inner {
     pub problem: Option<String>,
     pub log_pp: bool,
     pub crash_at: Option<usize>,
+    pub idle_polls: usize,
 }
 
 pub struct Ctl {
@@ -141,6 +142,7 @@ impl Ctl {
                 problem: None,
                 log_pp: false,
                 crash_at: None,
+                idle_polls: 0,
             }),
             cv: Condvar::new(),
             mode,
@@ -269,11 +271,13 @@ impl Ctl {
         v
     }
 
-    /// nothing can ever arrive any more but the coordinator would keep polling
-    pub fn is_hang(&self) -> bool {
+    /// nothing can ever arrive any more: if the coordinator polls now and neither receives nor leaves its loop, it
+    /// will poll forever (the driver lets it try a few times before calling that a hang - what the exit test is, is the
+    /// code's business, not the controller's)
+    pub fn is_idle(&self) -> bool {
         let g = self.inner.lock().unwrap();
         let (q, a, _, _) = Self::counts(&g);
-        g.coord == Coord::AtPoll && q == 0 && a == 0 && g.sent == g.recvd && g.done != g.total
+        g.coord == Coord::AtPoll && q == 0 && a == 0 && g.sent == g.recvd
     }
 
     pub fn apply(&self, d: &Decision) {
@@ -450,15 +454,21 @@ impl Controller for Handle {
                     g = g2;
                 }
                 let (q, a, _, _) = Ctl::counts(&g);
-                if q == 0 && a == 0 && g.sent == g.recvd && done != total && !g.drain {
-                    // the coordinator would now sleep and poll forever
-                    g.problem.get_or_insert(format!("hang: nothing outstanding but done={done} total={total}"));
-                    c.push(&mut g, json!({"e": "hang", "done": done, "total": total}));
-                    c.cv.notify_all();
-                    // park here for good: the process is going to be ended by the driver
-                    loop {
-                        g = c.cv.wait(g).unwrap();
+                if q == 0 && a == 0 && g.sent == g.recvd && !g.drain {
+                    // nothing can arrive any more: the coordinator must leave its loop now; let it try (an empty
+                    // poll sleeps 100 ms), and call it a hang when it keeps coming back
+                    g.idle_polls += 1;
+                    if g.idle_polls > 3 {
+                        g.problem.get_or_insert(format!("hang: nothing outstanding but the coordinator keeps polling (done={done} total={total})"));
+                        c.push(&mut g, json!({"e": "hang", "done": done, "total": total}));
+                        c.cv.notify_all();
+                        // park here for good: the run is abandoned by the driver
+                        loop {
+                            g = c.cv.wait(g).unwrap();
+                        }
                     }
+                } else {
+                    g.idle_polls = 0;
                 }
             }
         }
